@@ -56,6 +56,10 @@ HARNESS_PKGS = ['cmd', 'regex', 'regex/operators', 'regex/parser', 'regex/proces
 def new_ctx(prog, **kw):
     ctx = Ctx(prog, **kw)
     intrinsics.install(ctx)
+    ctx.globals_init['os.Stdout'] = gobmc.Ptr('STDOUT')
+    ctx.globals_init['os.Stdin'] = gobmc.Ptr('STDIN')
+    ctx.globals_init['io/fs.SkipDir'] = gobmc.IfaceV('error:skipdir', s_const('skip this directory'))
+    ctx.globals_init['io/fs.SkipAll'] = gobmc.IfaceV('error:skipall', s_const('skip everything and stop the walk'))
     intrinsics.register_harness_api(ctx, [MOD + '/' + p for p in HARNESS_PKGS])
     return ctx
 
@@ -134,6 +138,12 @@ def solve(ctx, cond, timeout_ms, extra=()):
         s.add(a)
     s.add(bl(cond))
     t = time.time()
+    d = os.environ.get('VERIF_DUMP')
+    if d:
+        global _DUMPN
+        _DUMPN = globals().get('_DUMPN', 0) + 1
+        with open('%s.%d.smt2' % (d, _DUMPN), 'w') as f:
+            f.write(s.to_smt2())
     r = s.check()
     return r, s, time.time() - t
 
@@ -284,13 +294,71 @@ def _job(args):
         return Result(harness=fname, params=kw.get('params'), status='engine-error', error='%s\n%s' % (e, traceback.format_exc()[-3000:]), obligations=[])
 
 
-def run_jobs(ssa_path, jobs, nproc=None):
-    """jobs: list of (fname, kwargs). returns list of results in order."""
-    nproc = nproc or min(16, max(1, len(jobs)))
-    if nproc == 1 or len(jobs) == 1:
-        return [_job((ssa_path, f, kw)) for f, kw in jobs]
-    with mp.get_context('fork').Pool(nproc) as pool:
-        return pool.map(_job, [(ssa_path, f, kw) for f, kw in jobs], chunksize=1)
+def _die_with_parent():
+    try:
+        import ctypes
+        import signal
+        ctypes.CDLL('libc.so.6').prctl(1, signal.SIGKILL)   # PR_SET_PDEATHSIG
+    except Exception:
+        pass
+
+
+def _child(conn, args):
+    _die_with_parent()
+    try:
+        r = _job(args)
+        # models etc. are plain data; strip anything unpicklable defensively
+        conn.send(json.loads(json.dumps(r, default=str)))
+    except BaseException as e:   # noqa
+        try:
+            conn.send({'harness': args[1], 'params': args[2].get('params'), 'status': 'engine-error', 'error': repr(e), 'obligations': []})
+        except Exception:
+            pass
+    finally:
+        conn.close()
+
+
+def run_jobs(ssa_path, jobs, nproc=None, job_timeout=None):
+    """jobs: list of (fname, kwargs). One OS process per job (a crash or hang of one job cannot stall the others)."""
+    nproc = nproc or int(os.environ.get('VERIF_NPROC', '16'))
+    job_timeout = job_timeout or int(os.environ.get('VERIF_JOB_TIMEOUT', '420'))
+    verbose = bool(os.environ.get('VERIF_VERBOSE'))
+    ctx = mp.get_context('fork')
+    results = [None] * len(jobs)
+    pending = list(enumerate(jobs))
+    running = {}
+    while pending or running:
+        while pending and len(running) < nproc:
+            idx, (f, kw) = pending.pop(0)
+            pc, cc = ctx.Pipe(duplex=False)
+            p = ctx.Process(target=_child, args=(cc, (ssa_path, f, kw)))
+            p.start()
+            cc.close()
+            running[idx] = (p, pc, time.time(), f, kw)
+        done = []
+        for idx, (p, pc, t0, f, kw) in running.items():
+            if pc.poll(0):
+                try:
+                    results[idx] = Result(pc.recv())
+                except EOFError:
+                    results[idx] = Result(harness=f, params=kw.get('params'), status='engine-error', error='worker died without a result (exit code %s)' % p.exitcode, obligations=[])
+                p.join(5)
+                done.append(idx)
+            elif not p.is_alive():
+                results[idx] = Result(harness=f, params=kw.get('params'), status='engine-error', error='worker died (exit code %s)' % p.exitcode, obligations=[])
+                done.append(idx)
+            elif time.time() - t0 > job_timeout:
+                p.kill()
+                results[idx] = Result(harness=f, params=kw.get('params'), fixlen=kw.get('fixlen'), status='timeout', error='job exceeded %ds wall' % job_timeout, obligations=[])
+                done.append(idx)
+        for idx in done:
+            p, pc, t0, f, kw = running.pop(idx)
+            if verbose:
+                r = results[idx]
+                print('job %d/%d %s %s %s %.1fs %s' % (idx + 1, len(jobs), f.rsplit('.', 1)[-1], kw.get('params'), kw.get('fixlen'), time.time() - t0, r['status']), file=sys.stderr, flush=True)
+        if not done:
+            time.sleep(0.05)
+    return results
 
 
 def summarize(results):
